@@ -64,15 +64,23 @@ func genEPParams(t *rapid.T, maxLogN int, fast32 int) (spec h.RLWESpec, levelQ, 
 		// reduce in the middle (QiOverflowMargin/2 is 4 for 61-bit primes, 8 for 60-bit primes)
 		spec.LogN = 4
 		m = spec.NthRoot()
-		maxQ := 8
+		// MRedLazy of reduced operands stays below q + q^2/2^64, so the lazy sums only come close to 2^64 with about a
+		// dozen accumulations of 61-bit limbs: 10..13 primes over 2 auxiliary primes
+		maxQ := 13
 		if h.Thorough() {
-			maxQ = 12
+			maxQ = 16
 		}
 		nQ = rapid.IntRange(5, maxQ).Draw(t, "deepNQ")
+		if rapid.Bool().Draw(t, "deepLong") {
+			nQ = rapid.IntRange(10, maxQ).Draw(t, "deepNQ2")
+		}
 		nP = rapid.IntRange(2, 3).Draw(t, "deepNP")
 		qsz = make([]int, nQ)
 		for i := range qsz {
-			qsz[i] = rapid.IntRange(58, 61).Draw(t, fmt.Sprintf("deepq%d", i))
+			qsz[i] = 61
+			if rapid.IntRange(0, 2).Draw(t, fmt.Sprintf("deepqk%d", i)) == 0 {
+				qsz[i] = rapid.IntRange(58, 60).Draw(t, fmt.Sprintf("deepq%d", i))
+			}
 		}
 		deep = true
 	default:
